@@ -41,6 +41,9 @@ struct VNode {
 // the unit U+0100 | low seven bits - a non-ASCII character whose LOW BYTE is an ASCII character ('{', '}', '<', ':', a digit ...).
 // It is ordinary text: it must be copied through, never read as tag syntax or as a placeholder digit. For char it stays one byte.
 static thread_local bool g_alias = false;
+// alias == 2: the grouping member is named "year", not "g", and objects may carry a member "pear" - a name with the same hash
+// (StringUtils::Hash does not see the first character of a longer name) - in any slot, also the one "year" had in the object before
+static thread_local const char *g_gkey = "g";
 template <typename Char_T>
 inline uint32_t widen_unit(uint32_t byte) {
     return (sizeof(Char_T) > 1 && byte >= 0x80) ? (0x0100U | (byte & 0x7FU)) : byte;
@@ -183,7 +186,13 @@ VNode gen_root(Entropy &e) {
             idn.k = VK::UInt;
             idn.u = i;
             std::vector<std::pair<std::string, VNode>> ms = {{"title", t}, {"id", idn}};
-            ms.insert(ms.begin() + long(e.below(3)), std::make_pair(std::string("g"), g));
+            ms.insert(ms.begin() + long(e.below(3)), std::make_pair(std::string(g_gkey), g));
+            if (g_gkey[1] != 0 && e.chance(60)) {
+                VNode tw;
+                tw.k = VK::UInt;
+                tw.u = 7 + e.below(3);
+                ms.insert(ms.begin() + long(e.below(4)), std::make_pair(std::string("pear"), tw));
+            }
             o.obj = ms;
             a.arr.push_back(o);
         }
@@ -733,7 +742,7 @@ std::string spell(const TNode &t) {
                 a[1] = " value=" + q + t.var + q;
             }
             if (t.group) {
-                a[2] = " group=" + q + "g" + q;
+                a[2] = " group=" + q + g_gkey + q;
             }
             if (t.sort != 0) {
                 a[3] = " sort=" + q + (t.sort == 1 ? "ascend" : "descend") + q;
@@ -798,7 +807,7 @@ bool groupable(const VNode &a) {
         bool has = false;
         for (auto &kv : o.obj) {
             std::string t;
-            has = has || (kv.first == "g" && scalar_text(kv.second, t));
+            has = has || (kv.first == g_gkey && scalar_text(kv.second, t));
         }
         if (!has) {
             return false;
@@ -814,7 +823,7 @@ VNode group_by_g(const VNode &a) {
         VNode       rest;
         rest.k = VK::Obj;
         for (auto &kv : o.obj) {
-            if (kv.first == "g") {
+            if (kv.first == g_gkey) {
                 scalar_text(kv.second, name);
                 if (kv.second.k == VK::Real) { // GroupBy prints reals with the default format (not generated here)
                     name = fmt_real(kv.second.d);
@@ -1459,6 +1468,7 @@ struct Scenario {
 void make_scenario(const Case &c, Scenario &s) {
     Entropy e(c.bytes);
     g_alias = (c.alias != 0);
+    g_gkey  = (c.alias == 2) ? "year" : "g";
     s.root = gen_root(e);
     Gen      g{e, s.root};
     GenScope sc;
@@ -1615,7 +1625,7 @@ struct H {
     static rc::Gen<Case> gen() {
         using namespace rc;
         return gen::map(gen::tuple(gen::resize(400, gen::container<std::vector<uint8_t>>(gen::arbitrary<uint8_t>())), pbt::pick<int>({1, 1, 2, 4, 3}),
-                                   pbt::pick<int>({0, 0, 1})),
+                                   pbt::pick<int>({0, 0, 1, 2})),
                         [](std::tuple<std::vector<uint8_t>, int, int> t) {
                             Case c;
                             c.bytes = std::get<0>(t);
@@ -1630,7 +1640,7 @@ struct H {
         static const int w[] = {1, 2, 4, 3};
         const uint8_t sel = f.sel();
         c.width = w[sel & 3];
-        c.alias = (sel >> 2) & 1;
+        c.alias = ((sel >> 2) & 1) + ((sel >> 2) & (sel >> 3) & 1);
         c.bytes = f.rest();
         return true;
     }
